@@ -43,6 +43,7 @@ class GoVerifier(GoExec, SpecMixin, CallsMixin, StmtsMixin):
         c = self.contracts.get(key)
         if decl is None:
             raise Unsupported('function %s not found in /repo (contract does not bind)' % key)
+        reset_fresh()        # obligations of one function do not depend on what was verified before it
         fr = Frame(key, decl, c)
         fr.loops, fr.objtypes = self.number_loops(decl)
         for ik in (self.frame_inlines_of(c) if c else []):
@@ -116,6 +117,24 @@ class GoVerifier(GoExec, SpecMixin, CallsMixin, StmtsMixin):
         entry = st.clone()
         st.entry = entry
         entry.entry = entry
+        try:
+            from .goreplay import GoReplayer
+            params = []
+            if decl.get('Recv') and decl['Recv']['List'][0].get('Names'):
+                n = decl['Recv']['List'][0]['Names'][0]
+                params.append((n['Name'], n['obj']['t'], entry.env[n['obj']['id']], True))
+            for fld in (decl['Type'].get('Params') or {}).get('List', []) or []:
+                for n in fld.get('Names') or []:
+                    if n['Name'] != '_':
+                        params.append((n['Name'], n['obj']['t'], entry.env[n['obj']['id']], False))
+            rtids = []
+            for fld in (decl['Type'].get('Results') or {}).get('List', []) or []:
+                for n in fld.get('Names') or [None]:
+                    rtids.append(fld['Type']['t'])
+            if not key.startswith(('natives:', 'goroot:')):
+                fr.replayer = GoReplayer(self, fr, entry, params, rnames, rtids)
+        except Exception:
+            fr.replayer = None
         if c:
             env = SpecEnv(st, {}, entry)
             for cl in c.get('requires'):
@@ -181,6 +200,7 @@ class GoVerifier(GoExec, SpecMixin, CallsMixin, StmtsMixin):
         """Lemmas are proved by the same engine.  `induct b` = induction on len(b): the lemma instantiated at b[:len(b)-1]
         is available as hypothesis (well-founded: the length decreases and is >= 0)."""
         lem = self.spec.lemmas[name]
+        reset_fresh()
         fr = Frame('lemma ' + name, None, lem)
         self.frame = fr
         st = State()
